@@ -1,5 +1,5 @@
 """C17 — a @snark function exposes exactly its arguments and results as public values."""
-import json
+import json, re
 from fractions import Fraction
 from .. import common
 from ..framework import Exploration, Violation
@@ -22,12 +22,24 @@ ASSUMPTIONS = ["function bodies come from a fixed library working on the numeric
                "guard prefix tie snarkIn/snarkOut inside guarded regions to the model (whole tracer state compared); theorem "
                "C17_outputs_guarded / C17_outputs_any_guard. Calls in oblivious _if/_while/_for branches are not generated "
                "(they set the same runtime.guard)",
+               "objects owned by the caller: about a quarter of the runs hold a POOL of 1-2 lists/dicts built once and handed (at top "
+               "level or nested) to two or more calls of the run; around every call the worker describes the argument objects before "
+               "and after, and the object the body returned before and after the wrapper converted it: both must be unchanged "
+               "(`arguments-mutated`, `result-object-mutated`); a returned structure that still holds a non-plain object is "
+               "`return-not-plain`; a reply the oracle cannot interpret is a violation (`unjudgeable-reply`), never a crash",
+               "bodies that format or convert their values (templates fmt:<conv>, conv in str, repr, %s/%r, f-string, format(), "
+               "print to a stream, logging, a caught exception message, printed containers, deepcopy, and the conversions Python "
+               "refuses for circuit values: bool, int, float, hash, index, len, iteration - each caught by the body), applied to one "
+               "secret intermediate of every kind (integer, boolean, fixed point), to the public arguments and to a list of them: the "
+               "public values added by the call must still be exactly the argument leaves followed by the result leaves",
                "Python bool arguments are not generated (they are ints to the decorator)"]
 PARTIAL = ["C17_inputs_single_kind: argument order is preserved when all numeric leaves are of one kind; with mixed int/float leaves the "
            "public inputs are grouped by type (finding C17-type-grouping); likewise for results of mixed kinds"]
 TEMPLATES = ["square", "sum", "each", "mixed", "twice", "fx", "fxmix", "plain", "passthrough",
              "echo", "sharedret", "sharedrows", "sharedtuple"]
 SHARED_RET = ("sharedret", "sharedrows", "sharedtuple")
+FMT = ["str", "repr", "pct_s", "pct_r", "fstring", "format", "print", "log", "exc", "container", "deepcopy",
+       "bool", "int", "float", "hash", "index", "len", "iter"]            # = worker_snark.FMT
 
 
 def gen_arg(rnd, depth, kinds, share=None):
@@ -47,15 +59,41 @@ def gen_arg(rnd, depth, kinds, share=None):
     return r
 
 
-def expand(a, memo=None):
-    """the plain structure that a structure with shared sub-containers stands for (same order as the worker's `build`)"""
+def expand(a, memo=None, pool=()):
+    """the plain structure that a structure with shared sub-containers stands for (same order as the worker's `build`);
+    ["g", k] is the k-th object of the run's pool (already expanded)"""
     if memo is None: memo = []
     if a[0] in ("i", "f"): return a
     if a[0] == "ref": return memo[a[1]]
-    if a[0] in ("l", "t"): r = [a[0], [expand(x, memo) for x in a[1]]]
-    else: r = ["d", {k: expand(v, memo) for k, v in a[1].items()}]
+    if a[0] == "g": return pool[a[1]]
+    if a[0] in ("l", "t"): r = [a[0], [expand(x, memo, pool) for x in a[1]]]
+    else: r = ["d", {k: expand(v, memo, pool) for k, v in a[1].items()}]
     memo.append(r)
     return r
+
+
+def gen_pool(rnd, kinds):
+    """1-2 mutable containers (list or dict, possibly nested, never empty of numbers) built once per run"""
+    out = []
+    for _ in range(rnd.choice([1, 1, 2])):
+        while True:
+            a = gen_arg(rnd, 0, kinds)
+            if a[0] in ("l", "d") and list(flat(a)):
+                out.append(a); break
+    return out
+
+
+def with_pool(rnd, args, npool):
+    """put a pool object into an argument list: as an argument of its own, or inside a list/dict argument"""
+    k = ["g", rnd.randrange(npool)]
+    c = rnd.random()
+    if c < 0.6 or not args:
+        args.insert(rnd.randrange(len(args) + 1), k)
+    elif c < 0.8:
+        args.append(["l", [["i", rnd.randrange(-9, 10)], k]])
+    else:
+        args.append(["d", {"a": k, "b": ["i", rnd.randrange(-9, 10)]}])
+    return args
 
 
 def gen_guards(rnd):
@@ -138,10 +176,30 @@ def conversions(ctx, ex):
 
 
 def judge_run(run, d, ex):
+    """the direct oracle; a reply it cannot interpret is a violation of its own kind, never a crash of the check"""
+    try:
+        if not isinstance(d.get("calls"), list) or len(d["calls"]) != len(run["calls"]):
+            raise ValueError(f"{len(d.get('calls') or [])} call records for {len(run['calls'])} calls")
+        judge_run_(run, d, ex)
+    except Exception as e:
+        import traceback
+        ex.violations.append(Violation({"dev": "unjudgeable-reply", "error": type(e).__name__,
+                                        "templates": ",".join(sorted({c["template"].split(":")[0] for c in run["calls"]})),
+                                        "pool": bool(run.get("pool"))},
+                                       f"the oracle could not interpret what the run reported ({type(e).__name__}: {e})",
+                                       {"run": run, "observed": d, "traceback": traceback.format_exc().splitlines()[-4:]}))
+
+
+def judge_run_(run, d, ex):
     """the direct oracle on one executed run (`d`: what the worker observed)"""
     res = run["res"]
+    pool = [expand(x) for x in run.get("pool", [])]
+    used = {}           # pool object -> number of earlier calls of this run that received it
     for c, rec in zip(run["calls"], d["calls"]):
-        leaves = list(flat(expand(["t", c["args"]])))
+        leaves = list(flat(expand(["t", c["args"]], None, pool)))
+        mine = sorted({int(k) for k in re.findall(r'\["g", (\d+)\]', json.dumps(c["args"]))})
+        reuse = "same-object-as-earlier-call" if any(used.get(k) for k in mine) else "pool-first-use" if mine else "no"
+        for k in mine: used[k] = used.get(k, 0) + 1
         kinds = {x[0] for x in leaves}
         guards = c.get("guards", [])
         gstr = "".join(str(g) for _, g in guards) or "no"
@@ -151,9 +209,18 @@ def judge_run(run, d, ex):
         ex.distinct.add((c["template"], json.dumps(c["args"]), gstr))
         ex.count(f"template:{c['template']}"); ex.count("argkinds:" + "".join(sorted(kinds)))
         ex.count("guarded:" + gstr); ex.count("sharing:" + ("args" if shared_args else "ret" if sharing else "no"))
+        ex.count("argument-object:" + reuse)
         sig = {"template": c["template"], "argkinds": "".join(sorted(kinds)), "kwargs": bool(c["kwargs"]),
-               "sharing": sharing, "guarded": gstr}
+               "sharing": sharing, "guarded": gstr, "argument_object": reuse}
         rep = {"run": run, "call": c, "observed": rec}
+        if rec.get("args_changed"):
+            ex.violations.append(Violation(dict(sig, dev="arguments-mutated"),
+                                           f"the caller's argument objects were changed by the wrapped call: before "
+                                           f"{json.dumps(rec['args_changed'][0])[:160]}, after {json.dumps(rec['args_changed'][1])[:160]}", rep))
+        if rec.get("ret_changed"):
+            ex.violations.append(Violation(dict(sig, dev="result-object-mutated"),
+                                           f"the object returned by the body was changed by the wrapper: the body returned "
+                                           f"{json.dumps(rec['ret_changed'][0])[:160]}, it now holds {json.dumps(rec['ret_changed'][1])[:160]}", rep))
         if rec.get("pubs_around"):
             ex.violations.append(Violation(dict(sig, dev="extra-publics"),
                                            f"{rec['pubs_around']} public value(s) created around the wrapped call, outside its window", rep))
@@ -173,6 +240,13 @@ def judge_run(run, d, ex):
         rl = list(ret_leaves(rec["ret"]))
         if rec["plain"][0] == "!":
             continue
+        if any(x[0] == "?" for x in rl):
+            ex.violations.append(Violation(dict(sig, dev="return-not-plain"),
+                                           f"the wrapped call returned a structure still holding {[x[1] for x in rl if x[0] == '?'][:3]}: "
+                                           f"{json.dumps(rec['ret'])[:120]}", rep))
+            continue
+        if any(x[0] == "?" for x in ret_leaves(rec["plain"])):
+            raise ValueError(f"undecorated function returned a non-plain value: {json.dumps(rec['plain'])[:120]}")
         # under a guard of value 0 the body computes dummies: the outputs are then the values the call RETURNED
         pl = list(ret_leaves(rec["plain"] if transparent else rec["ret"]))
         nsecret_out = len(rec["pubs"]) - len(want_in)
@@ -251,16 +325,24 @@ def explore(ctx, extended=False, focus=None):
     twins = {}          # index of a twin run -> index of the run it repeats with other guard values
     for i in range(n):
         calls = []
-        for _ in range(ctx.rnd.randrange(1, 4)):
-            t = ctx.rnd.choice(TEMPLATES)
-            kinds = "if" if t in ("fx", "fxmix", "passthrough") and ctx.rnd.random() < 0.8 else "i"
+        # a quarter of the runs: containers built once, handed to two or more of the run's calls (the same mutable objects)
+        pool = gen_pool(ctx.rnd, ctx.rnd.choice(["i", "i", "if"])) if ctx.rnd.random() < 0.25 else []
+        pool_kinds = {x[0] for a in pool for x in flat(a)}
+        ncalls = ctx.rnd.randrange(2, 4) if pool else ctx.rnd.randrange(1, 4)
+        for k in range(ncalls):
+            t = ctx.rnd.choice(TEMPLATES) if ctx.rnd.random() < 0.8 else "fmt:" + ctx.rnd.choice(FMT)
+            kinds = "if" if (t in ("fx", "fxmix", "passthrough") or t.startswith("fmt:")) and ctx.rnd.random() < 0.8 else "i"
             share = [0] if ctx.rnd.random() < 0.35 else None
             args = [gen_arg(ctx.rnd, 0, kinds, share) for _ in range(ctx.rnd.randrange(1, 4))]
-            call = {"template": t, "args": args, "kwargs": ctx.rnd.random() < 0.08}
+            if pool and (k < 2 or ctx.rnd.random() < 0.6):
+                args = with_pool(ctx.rnd, args, len(pool) if k >= 2 else 1)      # object 0 goes to the first two calls at least
+            call = {"template": t, "args": args, "kwargs": ctx.rnd.random() < (0.03 if pool else 0.08)}
             if ctx.rnd.random() < 0.3:
                 call["guards"] = gen_guards(ctx.rnd)
             calls.append(call)
         run = {"res": ctx.rnd.choice([8, 8, 4]), "calls": calls}
+        if pool:
+            run["pool"] = pool
         runs.append(run)
         if any("guards" in c for c in calls) and ctx.rnd.random() < 0.5:
             # the same program with other guard values: the public layout must be the same
